@@ -24,6 +24,7 @@ func c27(r *core.Run) {
 	c27KeyAgreesWithItems(r)
 	c27RoutesPersisted(r)
 	c27PathRemovers(r)
+	c27RouteKeys(r)
 	const T = "pkg/routetab.Table"
 	const P = "pkg/routetab.pendCallResTab"
 	la := core.NewLockAnalysis(w, "pkg/routetab")
@@ -198,6 +199,7 @@ func c27(r *core.Run) {
 
 func c28(r *core.Run) {
 	c28SignOnce(r)
+	c28OriginatorSkipped(r)
 	w := r.W
 	const S = "pkg/routetab.Service"
 	maxTTL := func(y ssa.Value) bool {
@@ -381,6 +383,17 @@ func c28(r *core.Run) {
 				n++
 				args := core.Common(c).Args
 				skips := args[len(args)-1]
+				// the skip list may be extended (append(skips, more…)): its base is what counts
+				for i := 0; i < 6; i++ {
+					ac, isApp := core.Forward(skips).(*ssa.Call)
+					if !isApp {
+						break
+					}
+					if _, ok := isBuiltinCall(ac, "append"); !ok {
+						break
+					}
+					skips = ac.Call.Args[0]
+				}
 				gc, idx := core.CallOf(skips)
 				okSkip := gc != nil && idx == 1 && core.IsCallTo(gc, "pkg/routetab.generatePathItems")
 				if okSkip {
